@@ -43,9 +43,21 @@ structure Store where
   committed : List ((Nat × Nat × Nat) × (Int × Nat)) -- (group, topic, partition) ↦ (offset, metadata id; 0 = "")
   groups : List (Nat × Group)
   configs : List (Nat × Config)
+  layouts : List ((Nat × Nat) × (List Nat × List Nat × List Nat))
+    -- (topic, partition) ↦ (replicas, isr, offline replicas) IN STORED ORDER (first replica = preferred
+    -- leader; duplicates allowed); partitions without an entry have the CreateTopic layout ([0], [0], [])
 deriving Repr, DecidableEq
 
-def empty (brokers : Nat) : Store := ⟨brokers, [], [], [], [], []⟩
+def empty (brokers : Nat) : Store := ⟨brokers, [], [], [], [], [], []⟩
+
+/-- the replica / ISR / offline lists the harness gives partition `p` of an `rtopic … v` topic:
+non-ascending, rotated and duplicate-carrying lists -/
+def layoutTable : List (List Nat) := [[2, 0, 1], [1, 2, 0], [2, 1, 0], [1, 0], [2, 2, 0], [0, 2, 1, 1]]
+
+def layoutOf (v p : Nat) : List Nat × List Nat × List Nat :=
+  (layoutTable.getD ((v + p) % 6) [], layoutTable.getD ((v + 2 * p + 3) % 6) [],
+   if v % 2 = 1 then layoutTable.getD ((v + p + 1) % 6) [] else [])
+
 
 def alookup {κ β : Type} [DecidableEq κ] (m : List (κ × β)) (k : κ) : Option β :=
   match m with
@@ -59,6 +71,9 @@ def aset {κ β : Type} [DecidableEq κ] (m : List (κ × β)) (k : κ) (v : β)
   match m with
   | [] => [(k, v)]
   | (k', v') :: t => if k' = k then (k, v) :: t else (k', v') :: aset t k v
+
+def partitionLayout (s : Store) (t p : Nat) : List Nat × List Nat × List Nat :=
+  (alookup s.layouts (t, p)).getD ([0], [0], [])
 
 /-- one call of a Store method with its arguments -/
 inductive Call where
@@ -135,7 +150,8 @@ def exec (s : Store) : Call → Store
   | .deleteTopic t =>
     match alookup s.topics t with
     | none => s
-    | some _ => { s with topics := aerase s.topics t, nextOffsets := s.nextOffsets.filter fun e => !(decide (e.1.1 = t)) }
+    | some _ => { s with topics := aerase s.topics t, nextOffsets := s.nextOffsets.filter fun e => !(decide (e.1.1 = t)),
+                         layouts := s.layouts.filter fun e => !(decide (e.1.1 = t)) }
 
 def runCalls (s : Store) (cs : List Call) : Store := cs.foldl exec s
 
@@ -159,11 +175,19 @@ def insertBy {α : Type} (key : α → Nat) (x : α) : List α → List α
 
 def sortBy {α : Type} (key : α → Nat) (l : List α) : List α := l.foldr (insertBy key) []
 
+structure PartInfo where
+  id : Nat
+  replicas : List Nat
+  isr : List Nat
+  offline : List Nat
+deriving Repr, DecidableEq
+
 inductive Result where
   | error
   | metricsOnly
   | topics (brokers : Option Nat) (l : List (Nat × Nat × Int))        -- name, partition count, error code
-  | topicDetails (l : List (Nat × Int × List Nat))                    -- name, error code, partition ids
+  | topicDetails (l : List (Nat × Int × List PartInfo))
+      -- name, error code, per partition: id, replicas, isr, offline replicas (stored order)
   | groups (l : List (Nat × Nat × Nat))                               -- id, state, member count
   | group (g : Nat) (info : Group)
   | offsets (l : List (Nat × Nat × Int × Nat))                        -- topic, partition, offset, metadata
@@ -182,7 +206,10 @@ def runTool (s : Store) : ToolCall → Store × Result
     (s1, .topics none (sortBy (·.1) (metadataTopics s [])))
   | .describeTopics names =>
     let s1 := exec s (.metadata names)
-    (s1, .topicDetails (sortBy (·.1) ((metadataTopics s names).map fun e => (e.1, e.2.2, List.range e.2.1))))
+    (s1, .topicDetails (sortBy (·.1) ((metadataTopics s names).map fun e =>
+      (e.1, e.2.2, (List.range e.2.1).map fun p =>
+        let l := partitionLayout s e.1 p
+        (⟨p, l.1, l.2.1, l.2.2⟩ : PartInfo)))))
   | .listGroups =>
     let s1 := exec s .listConsumerGroups
     (s1, .groups (sortBy (·.1) (s.groups.map fun e => (e.1, e.2.state, e.2.members.length))))
@@ -206,6 +233,32 @@ def runTool (s : Store) : ToolCall → Store × Result
     if names.all fun t => (fetchTopicConfig s t).isSome then
       (s2, .configs (sortBy (·.1) (names.filterMap fun t => (fetchTopicConfig s t).map fun c => (t, c))))
     else (s2, .error)
+
+/-! ### aliasing: what a read hands out
+
+Lean values are immutable, so "the handler sorted the slice it got from `Metadata`" can only hurt a
+model in which returned slices are REFERENCES.  As for C09's cache, slices live in a heap of
+buffers; the store owns some buffer ids (its `Replicas` / `ISR` / `OfflineReplicas` backing arrays),
+a read returns buffer ids, and a handler may overwrite any buffer it was handed. -/
+
+structure HStore where
+  heap : List (List Nat)       -- buffer id ↦ contents now
+  owned : List Nat             -- buffer ids referenced from the store's state
+deriving Repr, DecidableEq
+
+/-- what the store's state currently holds, in stored order -/
+def HStore.view (h : HStore) : List (List Nat) := h.owned.map fun b => h.heap.getD b []
+
+/-- `cloneMetadata`: every owned buffer is copied into a fresh buffer; the copies are returned -/
+def readCopy (h : HStore) : HStore × List Nat :=
+  ({ h with heap := h.heap ++ h.view }, (List.range h.owned.length).map (· + h.heap.length))
+
+/-- a read that skips the deep clone (what `filterTopics(s.state.Topics, …)` would do): the store's
+own buffers are handed out -/
+def readAlias (h : HStore) : HStore × List Nat := (h, h.owned)
+
+/-- the handler overwrites a buffer it holds (e.g. `sort.Slice` on the slice it was given) -/
+def handlerWrite (h : HStore) (b : Nat) (data : List Nat) : HStore := { h with heap := h.heap.set b data }
 
 /-- what the go/ast pass extracts per registered tool -/
 structure ToolFacts where
